@@ -27,6 +27,10 @@ type Sim struct {
 	// Completed classifies a Return: true = normal completion, false = abort.
 	Completed func(ret *ssa.Return) bool
 	MaxStates int
+	// TrackChoices: remember, for every phi, which incoming edge was taken
+	// (available to Record through Resolve).
+	TrackChoices bool
+	choice       map[*ssa.Phi]int
 
 	seqs    map[string]bool
 	visited map[string]bool
@@ -97,6 +101,28 @@ func (s *Sim) walk(b, pred *ssa.BasicBlock, env map[ssa.Value]bool, recs []strin
 	if onPath[b] {
 		return // loops are not expected in encoder/decoder bodies; cut
 	}
+	// remember phi choices
+	var savedChoice map[*ssa.Phi]int
+	if s.TrackChoices && pred != nil {
+		savedChoice = s.choice
+		nc := map[*ssa.Phi]int{}
+		for k, v := range s.choice {
+			nc[k] = v
+		}
+		for _, in := range b.Instrs {
+			phi, ok := in.(*ssa.Phi)
+			if !ok {
+				break
+			}
+			for i, pp := range b.Preds {
+				if pp == pred {
+					nc[phi] = i
+				}
+			}
+		}
+		s.choice = nc
+		defer func() { s.choice = savedChoice }()
+	}
 	// evaluate boolean phis on entry
 	env2 := env
 	copied := false
@@ -133,6 +159,14 @@ func (s *Sim) walk(b, pred *ssa.BasicBlock, env map[ssa.Value]bool, recs []strin
 		}
 	}
 	key := b.String() + "|" + envKey(env2) + "|" + strings.Join(recs, " ")
+	if s.TrackChoices {
+		var cs []string
+		for ph, i := range s.choice {
+			cs = append(cs, ph.Name()+"="+string(rune('0'+i)))
+		}
+		sort.Strings(cs)
+		key += "|" + strings.Join(cs, ",")
+	}
 	if s.visited[key] {
 		return
 	}
@@ -169,4 +203,22 @@ func (s *Sim) walk(b, pred *ssa.BasicBlock, env map[ssa.Value]bool, recs []strin
 
 func isBoolType(v ssa.Value) bool {
 	return v.Type().Underlying().String() == "bool"
+}
+
+// Resolve follows phi choices (and value-preserving conversions) of the
+// current path down to a non-phi value.
+func (s *Sim) Resolve(v ssa.Value) ssa.Value {
+	for i := 0; i < 16; i++ {
+		v = stripConv(v)
+		phi, ok := v.(*ssa.Phi)
+		if !ok {
+			return v
+		}
+		idx, ok := s.choice[phi]
+		if !ok {
+			return v
+		}
+		v = phi.Edges[idx]
+	}
+	return v
 }
